@@ -13,7 +13,7 @@ RULE = (
 )
 ASSUMPTIONS = [
     "power-of-two factors are exact in binary floating point, so (a) and (b) are compared bitwise",
-    "for arbitrary factors the two runs differ by rounding only; 1e-11 relative (a flip of the fixed-point iteration count needs a coincidence of probability ~1e-12 per step)",
+    "for arbitrary factors the two runs differ by rounding only: 1e-11 relative plus 1e-12 x steps x the measured conditioning of the trajectory (1/min(w,1-w), 1/min(y,1-y), P*p_feed/|J|), capped at 1e-6",
 ]
 SHARD_TIMEOUT = {"quick": 1500, "thorough": 14000}
 
@@ -37,7 +37,29 @@ INTENSIVE = ["feed_temperature", "feed_compositions", "permeate_composition", "p
 EXTENSIVE = ["feed_mass", "feed_evaporation_heat", "permeate_condensation_heat"]
 
 
-def compare(rep, oracle, case, base, twin, factor, exact, include_time=True):
+def conditioning(sc, base):
+    """how strongly a rounding-level perturbation of the state is amplified in the reported series: 1/min(w,1-w) (the
+    minor fraction is recovered as 1 - major), 1/min(y,1-y), and P*p_feed/|J| (driving force as a difference)"""
+    from pyvaporation.mixtures import get_partial_pressures
+
+    c = 1.0
+    for k in range(len(base.time)):
+        w, y = base.feed_compositions[k].p, base.permeate_composition[k].p
+        for v in (w, y):
+            if 0 < v < 1:
+                c = max(c, 1 / min(v, 1 - v))
+        try:
+            pf = get_partial_pressures(base.feed_temperature[k], sc.mix, base.feed_compositions[k], sc.model)
+            for i in (0, 1):
+                j = abs(float(base.partial_fluxes[k][i]))
+                if j > 0:
+                    c = max(c, base.permeances[k][i].value * abs(float(pf[i])) / j)
+        except Exception:
+            pass
+    return c * max(1, len(base.time))
+
+
+def compare(rep, oracle, case, base, twin, factor, exact, include_time=True, rel=1e-11):
     a, b = proc.model_fingerprint(base), proc.model_fingerprint(twin)
     for key in INTENSIVE + (["time"] if include_time else []):
         if exact:
@@ -47,7 +69,7 @@ def compare(rep, oracle, case, base, twin, factor, exact, include_time=True):
         else:
             for i, (u, v) in enumerate(zip(_flat(a[key]), _flat(b[key]))):
                 x, y = float.fromhex(u), float.fromhex(v)
-                if abs(x - y) > 1e-11 * max(abs(x), abs(y)):
+                if abs(x - y) > rel * max(abs(x), abs(y)):
                     rep.require(oracle, False, case, {"series": key, "i": i, "base": x, "twin": y, "factor": factor})
                     return
     for key in EXTENSIVE:
@@ -57,7 +79,7 @@ def compare(rep, oracle, case, base, twin, factor, exact, include_time=True):
                 x = y = None
             else:
                 x, y = float.fromhex(u), float.fromhex(v)
-                ok = (y == x * factor) if exact else abs(y - x * factor) <= 1e-11 * abs(x * factor)
+                ok = (y == x * factor) if exact else abs(y - x * factor) <= rel * abs(x * factor)
             if not ok:
                 rep.require(oracle, False, case, {"series": key, "step": i, "base": x, "twin": y, "factor": factor})
                 return
@@ -110,7 +132,8 @@ def run_shard(spec, rep):
             st, tw = sc.run(conditions=scaled_conditions(sc, k, k))
             if st == "ok":
                 twins += 1
-                compare(rep, "area and feed x k: intensive series unchanged, masses and heats x k (1e-11)", case, base, tw, k, False)
+                compare(rep, "area and feed x k: intensive series unchanged, masses and heats x k (1e-11)", case, base, tw, k, False,
+                        rel=min(1e-6, 1e-12 * conditioning(sc, base) + 1e-11))
             elif st == "raised":
                 rep.count("arbitrary_factor_twin_raised")
             # step-0 fluxes never depend on area, amount or step length
